@@ -445,13 +445,19 @@ def joined_is_collinear(ck, rule):
                         # the test has to IMPLY the call: the call itself or a conjunct of it - an alternative joined with `or`
                         # lets the record through without it
                         conj = list(t.values) if isinstance(t, ast.BoolOp) and isinstance(t.op, ast.And) else [t]
+                        def tests_the_record(x):
+                            # joined.<test>()  or  <Class / self>.<test>(joined.alignedPairs, ...)
+                            if not (isinstance(x, ast.Call) and isinstance(x.func, ast.Attribute)):
+                                return False
+                            if isinstance(x.func.value, ast.Name) and x.func.value.id == name:
+                                return True
+                            return any(isinstance(y, ast.Name) and y.id == name for a0 in list(x.args) + [k0.value for k0 in x.keywords]
+                                       for y in ast.walk(a0))
                         for x in conj:
-                            if isinstance(x, ast.Call) and isinstance(x.func, ast.Attribute) and isinstance(x.func.value, ast.Name) \
-                                    and x.func.value.id == name:
+                            if tests_the_record(x):
                                 guard = x
                         if guard is None and isinstance(t, ast.BoolOp) and isinstance(t.op, ast.Or) and any(
-                                isinstance(x, ast.Call) and isinstance(x.func, ast.Attribute) and isinstance(x.func.value, ast.Name)
-                                and x.func.value.id == name for x in t.values):
+                                tests_the_record(x) for x in t.values):
                             ck.violation(rule, construct, where(fn, r),
                                          "the test of the joined record is one alternative of an `or`: whenever the other alternative holds "
                                          "the record is handed back untested - a coarse comparison of the parts' header coordinates is no "
